@@ -25,6 +25,7 @@ Section Single.
     | ACopymode _ dst => path_eqb dst tmpf
     | ARemove p => path_eqb p tmpf
     | ARmdir p => path_eqb p tmpd
+    | AOpenRW p => path_eqb p tmpf
     | AReplace _ _ => false
     | _ => true
     end.
@@ -80,7 +81,7 @@ Section Single.
   Lemma sem_TShape a s : okT a = true -> SInv s -> TShape (fst (sem a s)).
   Proof.
     intros Hok HI. pose proof HI as [HF HT].
-    destruct a as [p|p|d|p q|p|i raises|off|d| | |t|t|p|src dst|src dst|p|p|e|t|t rel n|t|t| |p q|p q|t];
+    destruct a as [p|p|d|p q|p|i raises|off|d| | |t|t|p|src dst|src dst|p|p|e|t|t rel n|t|t| |p q|p q|t|p|n];
       simpl in *; try (eapply TShape_same; [|exact HT]; reflexivity); try discriminate.
     - apply path_eqb_eq in Hok. subst d.
       destruct (lookup (s_fs s) tmpd) eqn:E; [eapply TShape_same; [|exact HT]; reflexivity|].
@@ -123,6 +124,13 @@ Section Single.
       destruct (t_off t0 + t_len t0 <=? length d); exact HT.
     - destruct (nth_error (s_tens s) t); simpl; [|exact HT].
       destruct (read_tensor (s_fs s) t0); exact HT.
+    - apply path_eqb_eq in Hok. subst p. rewrite (resolve_S base T s tmpf HF T_tmpf).
+      destruct (lookup (s_fs s) tmpf) as [[f m| |t]|] eqn:E; simpl; eapply TShape_same; try exact HT; reflexivity.
+    - destruct (s_fd s) as [q|] eqn:Efd; [|eapply TShape_same; [|exact HT]; reflexivity].
+      destruct (lookup (s_fs s) q) as [[f m| |t]|] eqn:El; simpl;
+        try (eapply TShape_same; [|exact HT]; reflexivity).
+      eapply TShape_insert with (p := q) (n := File (firstn n (f ++ repeat 0%N (n - length f))) m); [|reflexivity|exact HT].
+      right. split; [eapply fd_is_tmpf; eauto | eauto].
   Qed.
 
   Lemma sem_SInv a s : okT a = true -> SInv s -> SInv (fst (sem a s)).
@@ -147,7 +155,7 @@ Lemma sem_trace a s :
   s_trace (fst (sem a s)) = s_trace s \/ exists o, s_trace (fst (sem a s)) = o :: s_trace s
      /\ (is_replace a = false -> forall x y, o <> OReplace x y) /\ (forall b, o <> OFail b).
 Proof.
-  destruct a as [p|p|d|p q|p|i raises|off|d| | |t|t|p|src dst|src dst|p|p|e|t|t rel n|t|t| |p q|p q|t]; simpl;
+  destruct a as [p|p|d|p q|p|i raises|off|d| | |t|t|p|src dst|src dst|p|p|e|t|t rel n|t|t| |p q|p q|t|p|n]; simpl;
     try (right; eexists; split; [reflexivity|split; [intros; discriminate|intros; discriminate]]);
     try (left; reflexivity).
   - destruct (lookup (s_fs s) d); [|destruct (parent_ok (s_fs s) d)]; simpl;
@@ -173,6 +181,10 @@ Proof.
     destruct (file_at (s_fs s) (t_path t0)) as [[? ?]|]; [|reflexivity].
     destruct (t_off t0 + t_len t0 <=? length l); reflexivity.
   - left. destruct (nth_error (s_tens s) t); [|reflexivity]. destruct (read_tensor (s_fs s) t0); reflexivity.
+  - destruct (lookup (s_fs s) (resolve (s_fs s) p)) as [[| |]|]; simpl;
+      right; eexists; (split; [reflexivity|split; intros; discriminate]).
+  - destruct (s_fd s) as [q|]; [destruct (lookup (s_fs s) q) as [[| |]|]|]; simpl;
+      right; eexists; (split; [reflexivity|split; intros; discriminate]).
 Qed.
 
 Lemma sem_trace_mono a s o : In o (s_trace s) -> In o (s_trace (fst (sem a s))).
@@ -210,7 +222,7 @@ Qed.
 Lemma sem_valids a s : is_invalidate a = false -> valids (fst (sem a s)) = valids s.
 Proof.
   intros Ha. unfold valids.
-  destruct a as [p|p|d|p q|p|i raises|off|d| | |t|t|p|src dst|src dst|p|p|e|t|t rel n|t|t| |p q|p q|t]; simpl in *;
+  destruct a as [p|p|d|p q|p|i raises|off|d| | |t|t|p|src dst|src dst|p|p|e|t|t rel n|t|t| |p q|p q|t|p|n]; simpl in *;
     try reflexivity; try discriminate.
   - destruct (lookup (s_fs s) d); [|destruct (parent_ok (s_fs s) d)]; reflexivity.
   - destruct (lookup (s_fs s) (resolve (s_fs s) p)) as [[| |]|]; [| | |destruct (parent_ok (s_fs s) (resolve (s_fs s) p))];
@@ -233,6 +245,8 @@ Proof.
     destruct (file_at (s_fs s) (t_path t0)) as [[? ?]|]; [|reflexivity].
     destruct (t_off t0 + t_len t0 <=? length l); reflexivity.
   - destruct (nth_error (s_tens s) t); [|reflexivity]. destruct (read_tensor (s_fs s) t0); reflexivity.
+  - destruct (lookup (s_fs s) (resolve (s_fs s) p)) as [[| |]|]; reflexivity.
+  - destruct (s_fd s) as [q|]; [destruct (lookup (s_fs s) q) as [[| |]|]|]; reflexivity.
 Qed.
 
 (* ---- the table of external tensors: only release (unmap) and invalidate touch it *)
@@ -257,7 +271,7 @@ Lemma sem_tens a s :
   \/ exists t, s_tens (fst (sem a s)) = upd (s_tens s) t (fun x => set_map x None).
 Proof.
   intros Ha.
-  destruct a as [p|p|d|p q|p|i raises|off|d| | |t|t|p|src dst|src dst|p|p|e|t|t rel n|t|t| |p q|p q|t]; simpl in *;
+  destruct a as [p|p|d|p q|p|i raises|off|d| | |t|t|p|src dst|src dst|p|p|e|t|t rel n|t|t| |p q|p q|t|p|n]; simpl in *;
     try (left; reflexivity); try discriminate.
   - left. destruct (lookup (s_fs s) d); [|destruct (parent_ok (s_fs s) d)]; reflexivity.
   - left. destruct (lookup (s_fs s) (resolve (s_fs s) p)) as [[| |]|]; [| | |destruct (parent_ok (s_fs s) (resolve (s_fs s) p))];
@@ -280,6 +294,8 @@ Proof.
     destruct (file_at (s_fs s) (t_path t0)) as [[? ?]|]; [|reflexivity].
     destruct (t_off t0 + t_len t0 <=? length l); reflexivity.
   - left. destruct (nth_error (s_tens s) t); [|reflexivity]. destruct (read_tensor (s_fs s) t0); reflexivity.
+  - left. destruct (lookup (s_fs s) (resolve (s_fs s) p)) as [[| |]|]; reflexivity.
+  - left. destruct (s_fd s) as [q|]; [destruct (lookup (s_fs s) q) as [[| |]|]|]; reflexivity.
 Qed.
 
 Lemma sem_trel tens a s :
